@@ -533,9 +533,9 @@ func main() {
 		guarded(r, c)
 		return
 	}
-	n := r.N(84, 840)
+	n := r.N(168, 1680)
 	if r.Phase == "real" {
-		n = r.N(42, 420)
+		n = r.N(84, 840)
 	}
 	for i := 0; i < n; i++ {
 		if !r.Mine(i) {
